@@ -80,6 +80,7 @@ func labelsForCompare(l refmodel.Labels) string {
 }
 
 func c08Check(r *vkit.Run, in c08Input) bool {
+	r.Begin("C08", in)
 	q := c08Q[in.Query]
 	data := c08Data(in)
 	in.Text = q.Text()
